@@ -18,7 +18,7 @@ func (p *c04) Setup(env *fw.Env) error {
 	p.Env = env
 	xgocWarm(env)
 	p.N = env.Pick(40, 1500)
-	p.RuleS = "each case is an XGo program holding 5 generated range expressions start:end:step (|start|,|end| <= 12, |step| in 1..5, step omitted / start omitted forms, each operand written as a literal, a variable or a computed call), each used in nine contexts: for i <- R, for i in R, for i := range R, for j = range R, for range R (count), for i <- R if filter, [i for i <- R], [i for i <- R if filter] and {i: i*i for i <- R}. The program is compiled by the XGo compiler, built and run; every context prints the sequence it enumerated on a tagged line. Oracle: each line equals the sequence of the reference model (i = start; step>0 ? i<end : i>end; i += step) — so all contexts agree with each other and with the documented meaning. Three further loops have bounds written len(x) while the body grows x: the operands are evaluated once. Loops carry an iteration guard (60 iterations, marker 99999) so that a runaway loop is reported, not suffered. Every context that differs is reported under its own site (context/step class)."
+	p.RuleS = "each case is an XGo program holding 5 generated range expressions start:end:step (|start|,|end| <= 12, |step| in 1..5, step omitted / start omitted forms, each operand written as a literal, a variable or a computed call), each used in nine contexts: for i <- R, for i in R, for i := range R, for j = range R, for range R (count), for i <- R if filter, [i for i <- R], [i for i <- R if filter] and {i: i*i for i <- R}. The program is compiled by the XGo compiler, built and run; every context prints the sequence it enumerated on a tagged line. Oracle: each line equals the sequence of the reference model (i = start; step>0 ? i<end : i>end; i += step) — so all contexts agree with each other and with the documented meaning. Eleven further loops have bounds written len(x), as a variable, a field, an element or a dereference while the body changes x: the operands are evaluated once. Loops carry an iteration guard (60 iterations, marker 99999) so that a runaway loop is reported, not suffered. Every context that differs is reported under its own site (context/step class)."
 	p.Assume = []string{"the documented examples (doc/docs.md, Range for) fix the meaning for positive steps; for negative steps the model is the runtime range object's (x/xgo.NewRange) descending enumeration, which the property requires every context to agree with"}
 	p.Floor = map[string]int{"#evaluations": p.N * 9 / 10, "#nontrivial": 1, "programs-executed": p.N * 9 / 10, "stdout-lines-compared": p.N * 30, "triple:step-negative": p.N, "triple:step-positive": p.N, "triple:empty-span": p.N / 2, "triple:non-divisible-span": p.N / 2}
 	return nil
@@ -148,6 +148,23 @@ func (p *c04) build(c fw.Case, r *fw.Rec) pairBuild {
 		form = strings.ReplaceAll(form, "@", fmt.Sprint(k))
 		fmt.Fprintf(&src, "grow%d, two%d := [1, 2, 3], [0, 0]\n_ = two%d\nacc, n = nil, 0\n%s {\n\tn++\n\tif n > 60 {\n\t\tacc = append(acc, 99999)\n\t\tbreak\n\t}\n\tgrow%d <- 9\n\ttwo%d <- 9\n\tacc = append(acc, i)\n}\necho \"bound-evaluated-once/%d:\", acc\n", k, k, k, form, k, k, k)
 		fmt.Fprintf(&want, "bound-evaluated-once/%d: %v\n", k, [][]int{{0, 1, 2}, {0, 1, 2}, {1}}[k])
+	}
+	// the same with operands that are variables, fields, elements and dereferences the body assigns to
+	src.WriteString("type rbox struct{ n, step int }\n")
+	for k, sc := range []struct{ decl, form, upd, want string }{
+		{"nn@ := 4", "for i <- :nn@", "nn@--", "[0 1 2 3]"},
+		{"bx@ := &rbox{n: 4, step: 1}", "for i <- :bx@.n", "bx@.n--", "[0 1 2 3]"},
+		{"bx@ := &rbox{n: 4, step: 1}", "for i <- 0:6:bx@.step", "bx@.step++", "[0 1 2 3 4 5]"},
+		{"ar@ := [4, 1]", "for i <- :ar@[0]", "ar@[0]--", "[0 1 2 3]"},
+		{"st@ := 2", "for i <- 0:8:st@", "st@++", "[0 2 4 6]"},
+		{"nn@ := 4", "for j = range :nn@", "nn@--\n\ti := j", "[0 1 2 3]"},
+		{"bx@ := rbox{n: 5, step: 1}", "for i <- :bx@.n if i%2 == 0", "bx@.n--", "[0 2 4]"},
+		{"pv@, pn@ := new(int), 3\n*pv@ = pn@", "for i in :*pv@", "*pv@ = 0", "[0 1 2]"},
+	} {
+		id := fmt.Sprint(k + 3)
+		fmt.Fprintf(&src, "%s\nacc, n = nil, 0\n%s {\n\tn++\n\tif n > 60 {\n\t\tacc = append(acc, 99999)\n\t\tbreak\n\t}\n\t%s\n\tacc = append(acc, i)\n}\necho \"bound-evaluated-once/%s:\", acc\n",
+			strings.ReplaceAll(sc.decl, "@", id), strings.ReplaceAll(sc.form, "@", id), strings.ReplaceAll(sc.upd, "@", id), id)
+		fmt.Fprintf(&want, "bound-evaluated-once/%s: %s\n", id, sc.want)
 	}
 	r.Cover("bound-evaluated-once-scenarios")
 	exp := want.String()
